@@ -118,7 +118,7 @@ func (s *schemaSliceValidator) Validate(data interface{}) *Result {
 		if s.Items != nil && len(s.Items.Schemas) > 0 && !s.AdditionalItems.Allows {
 			result.AddErrors(arrayDoesNotAllowAdditionalItemsMsg())
 		}
-		if s.AdditionalItems.Schema != nil {
+		if s.Items != nil && len(s.Items.Schemas) > 0 && s.AdditionalItems.Schema != nil {
 			for i := itemsSize; i < size; i++ {
 				validator := newSchemaValidator(s.AdditionalItems.Schema, s.Root, fmt.Sprintf("%s.%d", s.Path, i), s.KnownFormats, s.Options)
 				result.mergeForSlice(val, i, validator.Validate(val.Index(i).Interface()))
